@@ -118,7 +118,7 @@ func c12ScenariosX(n, t int, extra bool) []Scenario {
 	// option variants of the cheap pipelines (quick and thorough), of the costly ones (thorough only)
 	add("toma-pad-window", "toma", Call{Cmd: "toma", Sam: sam, Pad: true, Start: 2, End: 9, Wrap: 4})
 	add("snps-hardgaps", "snps", Call{Cmd: "snps", Ref: ref, Msa: qonly, HardGaps: true})
-	add("closest-tn93", "closest", Call{Cmd: "closest", Query: fastaOf("qa", "ACGTACGTAAAA"), Target: fastaOf("t0", "ACGTACGTAAAC", "t1", "ACGTACGTAAGA", "t2", "ACGTACGTAAAA"), Measure: "tn93"})
+	add("closest-tn93", "closest", Call{Cmd: "closest", Query: fastaOf("qa", "ACGTACGTAAAA", "qb", "ACGTACGTAACA"), Target: fastaOf("t0", "ACGTACGTAAAC", "t1", "ACGTACGTAAGA", "t2", "ACGTACGTAAAA"), Measure: "tn93"})
 	add("closestn-dist-only", "closestn", Call{Cmd: "closest", Query: tq, Target: tts, Measure: "snp", HasDist: true, MaxDist: 1})
 	if extra {
 		add("topa-dir-wrap-skipins", "topa-dir", Call{Cmd: "topa", Sam: samIndel, Ref: ref, PairDir: true, Wrap: 5, OmitIns: true})
